@@ -222,6 +222,157 @@ def parse_block(text):
 def profile_of(src, name):
     return parse_block(preprocess(func_body(src, name)))
 
+# ---------------------------------------------------------------------------------------------------------------------------
+# index prologues as programs (extension round): every statement that gives the index variable `i` a value in front of the
+# IndexOutOfBoundsError guard, and the guard itself, as terms `IE` over c_int(key) / i / nitems with the C types (int64_t = signed,
+# size_t = unsigned) — Cello/FailIdx.lean evaluates them on BitVec 64 and Props/C12.lean proves, for every nitems and every 64-bit
+# key, that they compute what the model's `resolveB` / `normIdxPush` compute.  A statement that is not in the fragment is an ExtractError.
+INDEX_FUNCS = {
+    'Array.c': ['Array_Get', 'Array_Set', 'Array_Pop_At', 'Array_Push_At'],
+    'List.c': ['List_At'],
+    'Tuple.c': ['Tuple_Get', 'Tuple_Set', 'Tuple_Push_At', 'Tuple_Pop_At'],
+}
+NITEMS_NAMES = {'a->nitems', 'l->nitems'}
+IE_TOKEN = re.compile(r'\s*(?:(\d+)|([A-Za-z_]\w*(?:\s*->\s*\w+)*)|(<=|>=|==|!=|\|\||&&|[?:+\-<>()]))')
+
+class _IEParser:
+    """recursive descent over the C expression fragment: ?: / or and / comparisons / + - / casts to int64_t and size_t /
+    c_int(key), i, nitems, integer literals"""
+    def __init__(self, text, local_nitems):
+        self.toks = []; pos = 0; text = text.strip()
+        while pos < len(text):
+            m = IE_TOKEN.match(text, pos)
+            if not m: raise ExtractError('index expression outside the fragment: ' + norm(text))
+            if m.group(1) is not None: self.toks.append(('num', m.group(1)))
+            elif m.group(2) is not None: self.toks.append(('id', re.sub(r'\s+', '', m.group(2))))
+            else: self.toks.append(('op', m.group(3)))
+            pos = m.end()
+        self.k = 0; self.text = text; self.local_nitems = local_nitems
+    def peek(self): return self.toks[self.k] if self.k < len(self.toks) else ('end', '')
+    def take(self): t = self.peek(); self.k += 1; return t
+    def expect(self, v):
+        t = self.take()
+        if t[1] != v: raise ExtractError(f'index expression: expected `{v}` in ' + norm(self.text))
+    def is_word(self, *ws): t = self.peek(); return t[0] in ('id', 'op') and t[1] in ws
+    def ternary(self):
+        c = self.lor()
+        if self.is_word('?'):
+            self.take(); a = self.ternary(); self.expect(':'); b = self.ternary()
+            return f'(.cond {c} {a} {b})'
+        return c
+    def lor(self):
+        a = self.land()
+        while self.is_word('or', '||'): self.take(); a = f'(.or {a} {self.land()})'
+        return a
+    def land(self):
+        a = self.cmp()
+        while self.is_word('and', '&&'): self.take(); a = f'(.and {a} {self.cmp()})'
+        return a
+    def cmp(self):
+        a = self.add()
+        ops = {'<': 'lt', '<=': 'le', '>': 'gt', '>=': 'ge', 'is': 'eq', '==': 'eq', 'isnt': 'ne', '!=': 'ne'}
+        if self.is_word(*ops): o = self.take()[1]; a = f'(.{ops[o]} {a} {self.add()})'
+        return a
+    def add(self):
+        a = self.unary()
+        while self.is_word('+', '-'):
+            o = self.take()[1]; a = f'(.{"add" if o == "+" else "sub"} {a} {self.unary()})'
+        return a
+    def unary(self):
+        if self.is_word('(') and self.k + 2 < len(self.toks) and self.toks[self.k + 1] in (('id', 'int64_t'), ('id', 'size_t')) and self.toks[self.k + 2] == ('op', ')'):
+            ty = self.toks[self.k + 1][1]; self.k += 3
+            return f'(.{"castS" if ty == "int64_t" else "castU"} {self.unary()})'
+        return self.primary()
+    def primary(self):
+        t = self.take()
+        if t[0] == 'num': return f'(.lit {t[1]})'
+        if t == ('op', '('):
+            e = self.ternary(); self.expect(')'); return e
+        if t[0] == 'id':
+            if t[1] == 'c_int':
+                self.expect('('); self.expect('key'); self.expect(')'); return '.key'
+            if t[1] == 'i': return '.i'
+            if t[1] in NITEMS_NAMES or (t[1] == 'nitems' and self.local_nitems): return '.n'
+        raise ExtractError(f'index expression: `{t[1]}` is outside the fragment in ' + norm(self.text))
+    def parse(self):
+        e = self.ternary()
+        if self.k != len(self.toks): raise ExtractError('index expression: trailing text in ' + norm(self.text))
+        return e
+
+ASSIGN_I = re.compile(r'^(?:int64_t\s+)?i\s*=(?!=)\s*(.*)$', re.S)
+TOUCHES_I = re.compile(r'(?<![\w>.])i\s*(\+\+|--|[-+*/|&^%]?=(?!=)|<<=|>>=)|(\+\+|--)\s*i\b')
+
+def index_program(src, name):
+    """(is `i` a parameter, [assignments to i in front of the guard], guard condition, [assignments to i after the guard at top level])"""
+    body = preprocess(func_body(src, name))
+    m = re.search(r'\b' + re.escape(name) + r'\s*\(([^)]*)\)\s*\{', src)
+    param = bool(m and re.search(r'\bint64_t\s+i\b', m.group(1)))
+    local_nitems = re.search(r'\bsize_t\s+nitems\s*=\s*Tuple_Len\s*\(\s*t\s*\)\s*;', body) is not None
+    assigns = []; guard = None; post = []
+    i = 0
+    while True:
+        i = skip_ws(body, i)
+        if i >= len(body): break
+        if body[i] == '{': raise ExtractError(f'{name}: bare block at the top level')
+        mk = KEYWORD.match(body, i)
+        if mk and mk.group(1) == 'if':
+            p = skip_ws(body, mk.end()); e = balanced(body, p); cond = body[p + 1:e - 1]
+            j = skip_ws(body, e)
+            if body[j] == '{': e2 = balanced(body, j, '{', '}')
+            else: e2 = stmt_end(body, j)
+            block = body[j:e2]
+            # else branches
+            k = skip_ws(body, e2); me = KEYWORD.match(body, k)
+            while me and me.group(1) == 'else':
+                k = skip_ws(body, me.end())
+                if KEYWORD.match(body, k) and KEYWORD.match(body, k).group(1) == 'if':
+                    p2 = skip_ws(body, KEYWORD.match(body, k).end()); k = skip_ws(body, balanced(body, p2))
+                e2 = balanced(body, k, '{', '}') if body[k] == '{' else stmt_end(body, k)
+                block += body[k:e2]; k = skip_ws(body, e2); me = KEYWORD.match(body, k)
+            if guard is None and re.search(r'\bthrow\s*\(\s*IndexOutOfBoundsError\b', block):
+                guard = _IEParser(cond, local_nitems).parse()
+            elif guard is None and TOUCHES_I.search(block):
+                raise ExtractError(f'{name}: the index variable is modified inside a conditional in front of the bounds test')
+            i = e2; continue
+        if mk and mk.group(1) in ('for', 'while', 'foreach', 'do', 'switch'):
+            if guard is None: raise ExtractError(f'{name}: a loop in front of the bounds test')
+            break        # what follows the first loop is the walk to the element, not the prologue
+        e = stmt_end(body, i); st = body[i:e - 1].strip(); i = e
+        ma = ASSIGN_I.match(st)
+        if ma:
+            term = _IEParser(ma.group(1), local_nitems).parse()
+            (assigns if guard is None else post).append(term)
+        elif TOUCHES_I.search(st):
+            raise ExtractError(f'{name}: the index variable is modified by `{norm(st)}` (outside the fragment)')
+    if guard is None: raise ExtractError(f'{name}: no IndexOutOfBoundsError guard found')
+    return param, assigns, guard, post
+
+def c_string_literals(text):
+    """the concatenation of adjacent C string literals at the start of `text` (None when it does not start with one)"""
+    out = ''; i = 0; any_ = False
+    while True:
+        while i < len(text) and text[i] in ' \t\r\n': i += 1
+        if i >= len(text) or text[i] != '"': break
+        i += 1; any_ = True
+        while text[i] != '"':
+            if text[i] == '\\':
+                c = text[i + 1]; out += {'n': '\n', 't': '\t', '"': '"', '\\': '\\', "'": "'"}.get(c, '\\' + c); i += 2
+            else: out += text[i]; i += 1
+        i += 1
+    return out if any_ and i >= len(text) else None
+
+THROW = re.compile(r'(?<![\w>.])throw\s*\(')
+def throw_sites(src, name):
+    body = preprocess(func_body(src, name)); out = []
+    for m in THROW.finditer(body):
+        e = balanced(body, m.end() - 1)
+        parts = split_top(body[m.end():e - 1])
+        if len(parts) < 2: raise ExtractError(f'{name}: throw without a message')
+        fmt = c_string_literals(parts[1])
+        if fmt is None: raise ExtractError(f'{name}: the message of a throw is not a string literal: ' + norm(parts[1]))
+        out.append((name, parts[0].strip(), fmt, [re.sub(r'\s+', '', a) for a in parts[2:]]))
+    return out
+
 KIND = {'if': 'ite', 'else': 'els', 'end': 'fin', 'loop': 'loop', 'return': 'ret', 'throw': 'thr', 'check': 'chk', 'call': 'call',
         'assign': 'asg', 'mut': 'mut'}
 
@@ -245,6 +396,20 @@ def gen_fail(repo):
             for f in funcs: mrows.append((f, profile_of(src, f)))
     finally:
         KEEP_MEMORY_CHECK[0] = False
+    irows = []
+    for fname, funcs in INDEX_FUNCS.items():
+        src = read(f'{repo}/src/{fname}')
+        for f in funcs: irows.append((f,) + index_program(src, f))
+    idefs = '\n\n'.join(
+        f'/-- `{f}`: the statements that give `i` its value in front of the bounds test, the test, and what is assigned to `i` behind it -/\n'
+        f'def idx_{f} : IdxProg :=\n  {{ param := {"true" if param else "false"},\n    assigns := {lean_list(assigns)},\n    guard := {guard},\n    post := {lean_list(post)} }}'
+        for f, param, assigns, guard, post in irows)
+    ilist = ', '.join(f'({lean_str(f)}, idx_{f})' for f, *_ in irows)
+    trows = []
+    for fname, funcs in FUNCS.items():
+        src = read(f'{repo}/src/{fname}')
+        for f in funcs: trows += throw_sites(src, f)
+    tbody = ',\n  '.join(f'({lean_str(f)}, {lean_str(x)}, {lean_str(fmt)}, {lean_list([lean_str(a) for a in args])})' for f, x, fmt, args in trows)
     mbody = ',\n  '.join(f'({lean_str(f)}, {lean_list([lean_tok(t) for t in toks])})' for f, toks in mrows)
     return HEADER + f"""namespace CelloGen.Fail
 
@@ -264,6 +429,36 @@ def profile : List (String × List (K × String)) := [
     NULL test of an allocation the model's `Str.resizeOom` depends on -/
 def memoryProfile : List (String × List (K × String)) := [
   {mbody}]
+
+/-- C expressions over the index variable: `c_int(key)` and `i` are `int64_t` (signed), `nitems` is `size_t` (unsigned), literals
+    are `int`; comparisons and `or` / `and` yield the `int` 0 or 1; `cond c a b` is `c ? a : b` -/
+inductive IE where
+  | key | i | n
+  | lit (v : Nat)
+  | add (a b : IE) | sub (a b : IE)
+  | castS (a : IE) | castU (a : IE)
+  | lt (a b : IE) | le (a b : IE) | gt (a b : IE) | ge (a b : IE) | eq (a b : IE) | ne (a b : IE)
+  | or (a b : IE) | and (a b : IE)
+  | cond (c a b : IE)
+deriving DecidableEq, Repr, Inhabited
+
+/-- the index prologue of a function: is `i` a parameter (`List_At`) or a local initialised by the first assignment; the right-hand
+    sides assigned to `i`, in statement order, in front of the `IndexOutOfBoundsError` guard; the guard condition; right-hand sides
+    assigned to `i` at the top level behind the guard -/
+structure IdxProg where
+  param : Bool
+  assigns : List IE
+  guard : IE
+  post : List IE
+deriving DecidableEq, Repr, Inhabited
+
+{idefs}
+
+def idxProgs : List (String × IdxProg) := [{ilist}]
+
+/-- every `throw(E, "format", args…)` site of the profiled functions, in source order: function, exception, message format, arguments -/
+def throwSites : List (String × String × String × List String) := [
+  {tbody}]
 
 end CelloGen.Fail
 """
